@@ -1,6 +1,435 @@
-//! Special runner `tvh c20 ...` for C20 (things that do not fit replay/record). Fill in.
+//! Special runner `tvh c20 ...` for C20.
+//!
+//! The provider under test is a process-wide static and poisoning it is permanent for the
+//! process, so every history / session runs in a FRESH child process (`current_exe() c20 <sub>`),
+//! talking JSON over stdin/stdout:
+//!
+//!   c20 hist     one model history: real threads, a coordinator hands the turn from thread to thread
+//!                (channels) so that the lock acquisition order follows the behaviour; after every
+//!                step: outcome, under-lock provider events, poison flag.
+//!   c20 run      one concurrent session: N threads x phases (barriers between phases) hammer the
+//!                compiled API; per-thread CallStart/CallEnd order, under-lock TzEvents per call.
+//!   c20 ref      sequential execution of a list of calls (graph of F), stops when the lock is poisoned.
+//!   c20 replay <cases> <report>     spec -> impl: parent, replays TLC-generated histories
+//!   c20 probe    stdin calls, sequential, for experiments
+//!
+//! Ordering information used anywhere: per-thread program order, barriers between phases, and the
+//! global `seq` of provider events (a counter incremented inside FsTzdbProvider::get, i.e. under the
+//! lock). Never wall-clock.
+use crate::ops;
+use serde_json::{json, Value};
+use std::collections::{BTreeMap, HashMap};
+use std::io::{BufRead, Read, Write};
+use std::process::{Command, Stdio};
+use std::sync::atomic::{AtomicUsize, Ordering};
+use std::sync::{mpsc, Arc, Barrier, Mutex};
+use temporal_rs::verif;
+
 pub fn main(a: &[String]) {
-    let _ = a;
-    eprintln!("not implemented");
-    std::process::exit(2);
+    match a.first().map(|s| s.as_str()).unwrap_or("") {
+        "probe" => probe(),
+        "hist" => child_hist(),
+        "run" => child_run(),
+        "ref" => child_ref(),
+        "replay" => replay_main(&a[1..]),
+        _ => { eprintln!("usage: tvh c20 probe|hist|run|ref|replay <cases> <report>"); std::process::exit(2); }
+    }
+}
+
+fn stdin_json() -> Value {
+    let mut s = String::new();
+    std::io::stdin().read_to_string(&mut s).expect("stdin");
+    serde_json::from_str(&s).expect("stdin json")
+}
+
+/// how long a child may run before it is declared hung (a deadlock is an outcome, not a tool error)
+const CHILD_DEADLINE_MS: u64 = 30_000;
+
+/// run a sub-command of this executable in a fresh process; None = it did not finish (killed)
+pub fn child_opt(sub: &str, input: &Value) -> Option<Value> {
+    let exe = std::env::current_exe().expect("current_exe");
+    let mut ch = Command::new(exe).args(["c20", sub]).stdin(Stdio::piped()).stdout(Stdio::piped()).stderr(Stdio::null()).spawn().expect("spawn");
+    let text = input.to_string();
+    let mut si = ch.stdin.take().unwrap();
+    let w = std::thread::spawn(move || { let _ = si.write_all(text.as_bytes()); });
+    let mut so = ch.stdout.take().unwrap();
+    let rd = std::thread::spawn(move || { let mut b = Vec::new(); let _ = so.read_to_end(&mut b); b });
+    let t0 = std::time::Instant::now();
+    let mut spins = 0u32;
+    let status = loop {
+        if let Some(st) = ch.try_wait().expect("try_wait") { break Some(st); }
+        if t0.elapsed().as_millis() as u64 > CHILD_DEADLINE_MS { let _ = ch.kill(); let _ = ch.wait(); break None; }
+        spins += 1;
+        std::thread::sleep(std::time::Duration::from_micros(if spins < 200 { 200 } else { 5_000 }));
+    };
+    let _ = w.join();
+    let out = rd.join().unwrap_or_default();
+    let status = status?;
+    if !status.success() { panic!("child c20 {} failed: {:?}", sub, status); }
+    Some(serde_json::from_slice(&out).unwrap_or_else(|e| panic!("child c20 {} wrote no json ({})", sub, e)))
+}
+pub fn child(sub: &str, input: &Value) -> Value {
+    child_opt(sub, input).unwrap_or_else(|| panic!("child c20 {} hung (reference runs must terminate)", sub))
+}
+
+/// outcome in the form the trace spec compares: kind + canonical JSON text (type-safe for TLC)
+pub fn canon(out: &Value) -> Value { json!({"kind": out["kind"], "s": out.to_string()}) }
+
+fn ev_json(e: &verif::tz::TzEvent) -> Value { json!({"seq": crate::js::int(e.seq as i64 + 1), "zone": e.zone, "hit": e.hit}) }
+
+// ------------------------------------------------------------------ probe
+fn probe() {
+    if std::env::var("C20_PANIC_MSG").is_ok() { std::panic::set_hook(Box::new(|i| eprintln!("PANIC {}", i))); }
+    verif::tz::enable(true);
+    for l in std::io::stdin().lock().lines() {
+        let l = l.unwrap();
+        if l.trim().is_empty() { continue; }
+        let c: Value = serde_json::from_str(&l).expect("json");
+        let out = ops::exec(c["op"].as_str().unwrap(), &c["args"]);
+        let evs: Vec<Value> = verif::tz::take().iter().map(ev_json).collect();
+        println!("{}", json!({"op": c["op"], "args": c["args"], "out": out, "evs": evs, "poisoned": verif::provider_lock_poisoned()}));
+    }
+}
+
+// ------------------------------------------------------------------ hist (child)
+/// stdin: {"threads": T, "steps": [{"t": 1.., "op", "args"}]}; stdout: [{"out", "evs", "poisoned"}] per step.
+/// Thread t executes its steps when the coordinator hands it the turn, so critical sections happen
+/// in exactly the order of `steps`, each on its own real thread.
+fn child_hist() {
+    let h = stdin_json();
+    let nt = h["threads"].as_u64().unwrap() as usize;
+    let steps = h["steps"].as_array().unwrap().clone();
+    verif::tz::enable(true);
+    let (res_tx, res_rx) = mpsc::channel::<Value>();
+    let mut go = Vec::new();
+    let mut hs = Vec::new();
+    for _ in 0..nt {
+        let (tx, rx) = mpsc::channel::<Option<Value>>();
+        go.push(tx);
+        let res_tx = res_tx.clone();
+        hs.push(std::thread::spawn(move || {
+            while let Ok(Some(c)) = rx.recv() {
+                let out = ops::exec(c["op"].as_str().unwrap(), &c["args"]);
+                res_tx.send(out).unwrap();
+            }
+        }));
+    }
+    let mut obs = Vec::new();
+    for s in &steps {
+        let t = s["t"].as_u64().unwrap() as usize - 1;
+        go[t].send(Some(s.clone())).unwrap();
+        let out = res_rx.recv().unwrap();
+        let evs: Vec<Value> = verif::tz::take().iter().map(|e| json!({"zone": e.zone, "hit": e.hit})).collect();
+        obs.push(json!({"out": out, "evs": evs, "poisoned": verif::provider_lock_poisoned()}));
+    }
+    for g in &go { let _ = g.send(None); }
+    for h in hs { let _ = h.join(); }
+    println!("{}", Value::Array(obs));
+}
+
+// ------------------------------------------------------------------ ref (child)
+/// stdin: {"calls": [{"op","args"}], "zones": [..]}; executes sequentially on one thread; stops after
+/// the call that leaves the lock poisoned (the parent continues in another fresh process).
+fn child_ref() {
+    let p = stdin_json();
+    let mut outs = Vec::new();
+    for c in p["calls"].as_array().unwrap() {
+        outs.push(ops::exec(c["op"].as_str().unwrap(), &c["args"]));
+        if verif::provider_lock_poisoned() { break; }
+    }
+    // which zone identifiers load at all (graph of the lookup), asked of a private provider
+    let mut loadable = serde_json::Map::new();
+    for z in p["zones"].as_array().map(|v| v.as_slice()).unwrap_or(&[]) {
+        let z = z.as_str().unwrap();
+        let okz = std::panic::catch_unwind(|| temporal_rs::tzdb::FsTzdbProvider::default().get(z).is_ok()).unwrap_or(false);
+        loadable.insert(z.to_string(), json!(okz));
+    }
+    println!("{}", json!({"outs": outs, "loadable": loadable}));
+}
+
+/// F for a list of distinct calls: sequential runs in fresh processes (a new one after every poisoning).
+/// A call that does not return even when run alone has the outcome "timeout" (which no specification
+/// action matches).
+pub fn reference(calls: &[Value], zones: &[String]) -> (Vec<Value>, Value) {
+    let mut outs: Vec<Value> = Vec::new();
+    let mut loadable = child("ref", &json!({"calls": [], "zones": zones}))["loadable"].clone();
+    if loadable.is_null() { loadable = json!({}); }
+    while outs.len() < calls.len() {
+        match child_opt("ref", &json!({"calls": &calls[outs.len()..], "zones": []})) {
+            Some(r) => {
+                let got = r["outs"].as_array().unwrap();
+                if got.is_empty() { panic!("reference run made no progress"); }
+                outs.extend(got.iter().cloned());
+            }
+            None => {
+                // something in the batch hangs: find out which, one call per process
+                let rest: Vec<Value> = calls[outs.len()..].to_vec();
+                for c in rest {
+                    outs.push(match child_opt("ref", &json!({"calls": [c], "zones": []})) { Some(r) => r["outs"][0].clone(), None => json!({"kind": "timeout"}) });
+                }
+            }
+        }
+    }
+    (outs, loadable)
+}
+
+// ------------------------------------------------------------------ run (child)
+/// stdin: {"n": N, "phases": [[[call..] per thread] per phase]}; call = {"op","args"}.
+/// stdout: {"thr": [[{"ph","k","op","args","out","pz","evs"}]]}
+fn child_run() {
+    let p = stdin_json();
+    let n = p["n"].as_u64().unwrap() as usize;
+    let phases: Vec<Value> = p["phases"].as_array().unwrap().clone();
+    verif::tz::enable(true);
+    struct Coll { evs: Vec<verif::tz::TzEvent>, count: HashMap<std::thread::ThreadId, usize> }
+    let coll = Arc::new(Mutex::new(Coll { evs: Vec::new(), count: HashMap::new() }));
+    let bar = Arc::new(Barrier::new(n));
+    let phases = Arc::new(phases);
+    let mut hs = Vec::new();
+    for t in 0..n {
+        let (coll, bar, phases) = (coll.clone(), bar.clone(), phases.clone());
+        hs.push(std::thread::spawn(move || {
+            let me = std::thread::current().id();
+            let mut log: Vec<Value> = Vec::new();   // CallEnd records of this thread, in program order
+            let mut k = 0usize;
+            for (pi, ph) in phases.iter().enumerate() {
+                bar.wait();   // all calls of the previous phase have returned before any call of this one starts
+                for c in ph[t].as_array().unwrap() {
+                    k += 1;
+                    let out = ops::exec(c["op"].as_str().unwrap(), &c["args"]);
+                    // CallEnd: move everything emitted so far into the collector (atomically w.r.t. other
+                    // threads doing the same); all provider events of THIS call were emitted before it
+                    // returned, so my event count now is the boundary between call k and call k+1.
+                    let mut g = coll.lock().unwrap();
+                    for e in verif::tz::take() { *g.count.entry(e.thread).or_insert(0) += 1; g.evs.push(e); }
+                    let upto = *g.count.get(&me).unwrap_or(&0);
+                    drop(g);
+                    log.push(json!({"ph": pi + 1, "k": k, "op": c["op"], "args": c["args"], "out": out,
+                                    "pz": verif::provider_lock_poisoned(), "upto": upto}));
+                }
+            }
+            (me, log)
+        }));
+    }
+    let mut thr = Vec::new();
+    let logs: Vec<(std::thread::ThreadId, Vec<Value>)> = hs.into_iter().map(|h| h.join().expect("worker thread")).collect();
+    let mut g = coll.lock().unwrap();
+    for e in verif::tz::take() { g.evs.push(e); }
+    for (me, log) in logs {
+        let mine: Vec<&verif::tz::TzEvent> = g.evs.iter().filter(|e| e.thread == me).collect();
+        let mut from = 0usize;
+        let mut calls = Vec::new();
+        for mut c in log {
+            let upto = c["upto"].as_u64().unwrap() as usize;
+            let evs: Vec<Value> = mine[from..upto].iter().map(|e| ev_json(e)).collect();
+            from = upto;
+            c.as_object_mut().unwrap().remove("upto");
+            c["evs"] = Value::Array(evs);
+            calls.push(c);
+        }
+        assert_eq!(from, mine.len(), "provider events after the last call of a thread");
+        thr.push(Value::Array(calls));
+    }
+    println!("{}", json!({"thr": thr}));
+}
+
+/// zone identifiers mentioned anywhere in a call's arguments
+fn zones_of(v: &Value, acc: &mut Vec<String>) {
+    match v {
+        Value::Object(m) => for (k, x) in m { if k == "tz" { if let Some(s) = x.as_str() { acc.push(s.to_string()); } } else { zones_of(x, acc); } },
+        Value::Array(a) => for x in a { zones_of(x, acc); },
+        Value::String(s) => if let (Some(i), Some(j)) = (s.rfind('['), s.rfind(']')) { if i < j { acc.push(s[i + 1..j].to_string()); } },
+        _ => {}
+    }
+}
+
+/// One concurrent session against the real global provider (fresh process), joined with the graph
+/// of F from sequential fresh-process runs of the same calls. Returns the trace line.
+pub fn run_session(sid: usize, plan: &Value) -> Value {
+    // distinct calls of the plan
+    let mut distinct: BTreeMap<String, Value> = BTreeMap::new();
+    let mut zones = Vec::new();
+    for ph in plan["phases"].as_array().unwrap() { for th in ph.as_array().unwrap() { for c in th.as_array().unwrap() {
+        distinct.entry(json!({"op": c["op"], "args": c["args"]}).to_string()).or_insert_with(|| c.clone());
+        zones_of(&c["args"], &mut zones);
+    } } }
+    zones.sort(); zones.dedup();
+    // the injected fault is a panic by definition; everything else is asked of the real code, alone & sequentially
+    let keys: Vec<String> = distinct.keys().filter(|k| distinct[*k]["op"] != "Lock.panic").cloned().collect();
+    let calls: Vec<Value> = keys.iter().map(|k| distinct[k].clone()).collect();
+    let (outs, loadable) = reference(&calls, &zones);
+    let mut f: HashMap<String, Value> = keys.into_iter().zip(outs).collect();
+    for (k, c) in &distinct { if c["op"] == "Lock.panic" { f.insert(k.clone(), json!({"kind": "panic"})); } }
+    let mut rec = match child_opt("run", plan) {
+        Some(r) => r,
+        None => {
+            // the session did not finish (deadlock): every planned call is observed as "timeout"
+            let n = plan["n"].as_u64().unwrap() as usize;
+            let mut thr: Vec<Vec<Value>> = vec![Vec::new(); n];
+            for (pi, ph) in plan["phases"].as_array().unwrap().iter().enumerate() { for t in 0..n { for c in ph[t].as_array().unwrap() {
+                let k = thr[t].len() + 1;
+                thr[t].push(json!({"ph": pi + 1, "k": k, "op": c["op"], "args": c["args"], "out": {"kind": "timeout"}, "pz": false, "evs": []}));
+            } } }
+            json!({"thr": thr})
+        }
+    };
+    for th in rec["thr"].as_array_mut().unwrap() { for c in th.as_array_mut().unwrap() {
+        let key = json!({"op": c["op"], "args": c["args"]}).to_string();
+        c["f"] = canon(&f[&key]);
+        c["out"] = canon(&c["out"]);
+    } }
+    let known: Vec<&String> = zones.iter().filter(|z| loadable[z.as_str()] == true).collect();
+    json!({"op": "session", "sid": sid, "n": plan["n"], "nph": plan["phases"].as_array().unwrap().len(),
+           "known": known, "thr": rec["thr"], "plan": plan})
+}
+
+// ------------------------------------------------------------------ replay (spec -> impl)
+const ZA: &str = "America/New_York";
+const ZB: &str = "Europe/Berlin";
+const ZC: &str = "Asia/Tokyo";
+const FIXED: &str = "+05:30";
+const BAD: &str = "Nowhere/Land";
+
+fn zone_name(z: &str) -> &'static str {
+    match z { "za" => ZA, "zb" => ZB, "zc" => ZC, "-" => FIXED, "?" => BAD, _ => panic!("zone {}", z) }
+}
+
+/// the binding of an abstract call [kind, zone] to one convenience-API call (i varies the wrapper used)
+pub fn concrete(kind: &str, zone: &str, i: usize) -> Value {
+    let ns = json!({"s": 1, "l": [789, 3456, 2012, 5678, 141]});   // 2014-11, far from any transition
+    let tz = zone_name(zone);
+    match kind {
+        "ok" | "unknown" => match i % 4 {
+            0 => json!({"op": "CZ.get", "args": {"ns": ns, "tz": tz, "f": "hour"}}),
+            1 => json!({"op": "CZ.startOfDay", "args": {"ns": ns, "tz": tz}}),
+            2 => json!({"op": "CDur.round", "args": {"dur": {"d": 40, "h": 30}, "st": {"largest": "month", "smallest": "day"}, "rel": {"ns": ns, "tz": tz}}}),
+            _ => json!({"op": "CZ.fromStr", "args": {"s": format!("2020-03-08T12:00[{}]", tz)}}),
+        },
+        // out-of-range value: the sum leaves the representable range (after the zone was consulted)
+        "range" => if i % 2 == 0 { json!({"op": "CDur.round", "args": {"dur": {"y": 300000, "d": 40}, "st": {"largest": "month", "smallest": "day"}, "rel": {"ns": ns, "tz": tz}}}) }
+                   else { json!({"op": "CZ.add", "args": {"ns": ns, "tz": tz, "dur": {"y": 300000}}}) },
+        "panic" => json!({"op": "Lock.panic", "args": {}}),
+        _ => panic!("kind {}", kind),
+    }
+}
+
+fn lookup_class(evs: &[Value]) -> &'static str {
+    if evs.is_empty() { return "none"; }
+    let first_hit = evs[0]["hit"] == true;
+    let rest_hit = evs[1..].iter().all(|e| e["hit"] == true);
+    match (first_hit, rest_hit) {
+        (true, true) => "hit",
+        (false, true) => "miss",     // first lookup missed (loaded, or failed to load), any further ones hit
+        _ => "inconsistent",
+    }
+}
+
+pub fn run_history(order: &[Value]) -> (Vec<Value>, Vec<Value>) {
+    let nt = order.iter().map(|s| s["t"].as_u64().unwrap()).max().unwrap_or(1);
+    let steps: Vec<Value> = order.iter().enumerate().map(|(i, s)| {
+        let c = concrete(s["kind"].as_str().unwrap(), s["zone"].as_str().unwrap(), i);
+        json!({"t": s["t"], "op": c["op"], "args": c["args"]})
+    }).collect();
+    let obs = match child_opt("hist", &json!({"threads": nt, "steps": steps})) {
+        Some(o) => o.as_array().unwrap().clone(),
+        // the process did not finish (deadlock): every step is observed as "timeout"
+        None => steps.iter().map(|_| json!({"out": {"kind": "timeout"}, "evs": [], "poisoned": false})).collect(),
+    };
+    (steps, obs)
+}
+
+/// tvh c20 replay <cases.ndjson> <report.ndjson>
+fn replay_main(a: &[String]) {
+    let lines: Vec<Value> = std::io::BufReader::new(std::fs::File::open(&a[0]).expect("cases")).lines()
+        .map(|l| l.unwrap()).filter(|l| !l.trim().is_empty()).map(|l| serde_json::from_str(&l).expect("case json")).collect();
+    // graph of F for the concrete calls: each one ALONE in a fresh process
+    let fmap: Mutex<HashMap<String, Value>> = Mutex::new(HashMap::new());
+    let alone = |c: &Value| -> Value {
+        let key = c.to_string();
+        if let Some(v) = fmap.lock().unwrap().get(&key) { return v.clone(); }
+        let v = if c["op"] == "Lock.panic" { json!({"kind": "panic"}) }
+                else { match child_opt("ref", &json!({"calls": [c], "zones": []})) { Some(r) => r["outs"][0].clone(), None => json!({"kind": "timeout"}) } };
+        fmap.lock().unwrap().insert(key, v.clone());
+        v
+    };
+    let n = lines.len();
+    let next = AtomicUsize::new(0);
+    let report = Mutex::new(Vec::<(usize, usize, Value)>::new());
+    let samples = Mutex::new(Vec::<Value>::new());
+    let steps_total = AtomicUsize::new(0);
+    let binding_errors = Mutex::new(Vec::<String>::new());
+    let workers = std::thread::available_parallelism().map(|x| x.get()).unwrap_or(4).min(8);
+    std::thread::scope(|s| {
+        for _ in 0..workers {
+            s.spawn(|| loop {
+                let hi = next.fetch_add(1, Ordering::Relaxed);
+                if hi >= n { break; }
+                let order = lines[hi]["order"].as_array().unwrap();
+                let (steps, obs) = run_history(order);
+                steps_total.fetch_add(order.len(), Ordering::Relaxed);
+                for (i, st) in order.iter().enumerate() {
+                    let c = json!({"op": steps[i]["op"], "args": steps[i]["args"]});
+                    let fc = alone(&c);
+                    // binding sanity: the concrete call, alone, must be of the abstract kind
+                    let fk = fc["kind"].as_str().unwrap_or("");
+                    let kind = st["kind"].as_str().unwrap();
+                    let bound = fk == "timeout" || match kind { "ok" => fk == "ok", "panic" => fk == "panic", _ => fk != "ok" && fk != "panic" };
+                    if !bound { binding_errors.lock().unwrap().push(format!("{} alone gives {} for abstract kind {}", c, fk, kind)); }
+                    // expected concrete outcome of this step according to the model
+                    let mres = st["res"]["kind"].as_str().unwrap();
+                    let exp_out = if mres == "lockerr" { json!({"kind": "generic"}) } else { fc.clone() };
+                    // model lookup outcome in observable terms: a failed load is a miss too (that nothing was
+                    // inserted shows at the next lookup of that zone, which the model again expects to miss)
+                    let exp_lk = match st["lk"].as_str().unwrap() { "fail" => "miss", x => x };
+                    let o = &obs[i];
+                    let evs = o["evs"].as_array().unwrap();
+                    let olk = lookup_class(evs);
+                    // a call refused at the lock never reaches the provider
+                    let exp_lk = if mres == "lockerr" { "none" } else { exp_lk };
+                    let lk_ok = olk == exp_lk;
+                    // poison flag: only a panic under the lock may set it (the property does not say whether a recovered lock stays flagged)
+                    let pz_ok = !(o["poisoned"] == true) || st["pz"] == true;
+                    let hung = o["out"]["kind"] == "timeout";   // never acceptable, whatever the call does alone
+                    let out_ok = o["out"] == exp_out && !hung;
+                    let expected = json!({"kind": exp_out["kind"], "val": exp_out.get("val"), "lk": exp_lk, "pz": st["pz"]});
+                    // (the flag is judged one way only, so an acceptable flag is reported as the model's)
+                    let observed = json!({"kind": o["out"]["kind"], "val": o["out"].get("val"), "lk": olk, "pz": if pz_ok { st["pz"].clone() } else { o["poisoned"].clone() }});
+                    if hi % (n / 3 + 1) == 0 && i + 1 == order.len() {
+                        samples.lock().unwrap().push(json!({"op": "ProviderLock.history", "order": order, "concrete_last": c, "expected_last": expected, "observed_last": observed}));
+                    }
+                    if !(out_ok && lk_ok && pz_ok) {
+                        let what = if hung { "deadlock" } else if !out_ok { "result" } else if !lk_ok { "cache" } else { "poison-flag" };
+                        report.lock().unwrap().push((hi, i, json!({"i": hi + 1, "op": "ProviderLock.call", "cls": st["cls"], "differs": what,
+                            "args": {"order": order, "step": i + 1}, "concrete": c, "expected": expected, "observed": observed})));
+                    }
+                }
+            });
+        }
+    });
+    let be = binding_errors.into_inner().unwrap();
+    if !be.is_empty() { eprintln!("binding error: {}", be[0]); println!("binding error: {}", be[0]); std::process::exit(3); }
+    let mut mm = report.into_inner().unwrap();
+    mm.sort_by_key(|x| (x.0, x.1));
+    let mut f = std::fs::File::create(&a[1]).expect("report");
+    for (_, _, m) in &mm { writeln!(f, "{}", m).unwrap(); }
+    let failing: std::collections::BTreeSet<usize> = mm.iter().map(|x| x.0).collect();
+    println!("{}", json!({"cases": n, "steps": steps_total.load(Ordering::Relaxed), "mismatches": mm.len(), "failing_histories": failing.len(),
+                          "distinct_concrete_calls": fmap.lock().unwrap().len(), "samples": samples.into_inner().unwrap()}));
+}
+
+/// `tvh exec` entry for op "ProviderLock.call": re-run a history (fresh process) and return step `step`
+pub fn exec_history_step(a: &Value) -> Value {
+    if a.get("plan").is_some() {
+        // a call of a recorded concurrent session: re-run the whole session (fresh process), return call (t, k)
+        let line = run_session(0, &a["plan"]);
+        let (t, k) = (a["t"].as_u64().expect("t") as usize, a["k"].as_u64().expect("k") as usize);
+        return line["thr"][t - 1][k - 1]["out"].clone();
+    }
+    let order = a["order"].as_array().expect("order");
+    let step = a["step"].as_u64().expect("step") as usize;
+    let (_, obs) = run_history(&order[..step]);
+    let o = &obs[step - 1];
+    let mpz = &order[step - 1]["pz"];
+    let pz_ok = !(o["poisoned"] == true) || *mpz == true;
+    json!({"kind": o["out"]["kind"], "val": o["out"].get("val"), "lk": lookup_class(o["evs"].as_array().unwrap()), "pz": if pz_ok { mpz.clone() } else { o["poisoned"].clone() }})
 }
